@@ -77,7 +77,8 @@ def bounded_sidelobes(tier, seed):
                         j = int(np.argmin(db))
                         fails.append({"label": "C12.sidelobe_level", "input": {"psll": psll, "L": L, "bin": b0, "offset_bins": float(bb[j] - b0)}, "detail": f"suppression {db[j]:.2f} dB < psll-1 = {psll-1} dB"})
     # through the analyzer: a sinusoid analysed away from its frequency
-    for psll in (60, 120) if tier == "quick" else (60, 100, 150):
+    for psll in (60, 120, 200) if tier == "quick" else (60, 100, 150, 180, 200):
+        # (200 dB is the default request: the statement holds "up to the 200 dB default")
         N, fs, L = 8000, 100.0, 400
         alpha = float(kaiser_alpha(psll))
         f0 = fs * (100.3) / L
